@@ -27,9 +27,10 @@ type c16HashInput struct {
 }
 
 type c16HashCase struct {
-	Fn string       `json:"fn"` // SHA512_256 | SHA512_256i | SHA512_256i_TAGGED
-	A  c16HashInput `json:"a"`
-	B  c16HashInput `json:"b"`
+	Fn   string       `json:"fn"` // SHA512_256 | SHA512_256i | SHA512_256i_TAGGED
+	A    c16HashInput `json:"a"`
+	B    c16HashInput `json:"b"`
+	Note string       `json:"note,omitempty"` // where the pair comes from (appended to the report)
 }
 
 func c16HexAll(t [][]byte) []string {
@@ -66,7 +67,11 @@ func c16Digest(fn string, in c16HashInput) (d []byte, panicked string, err error
 				return nil, "", err
 			}
 		}
-		return common.SHA512_256(t...), "", nil
+		r := common.SHA512_256(t...)
+		if r == nil {
+			return nil, "", nil
+		}
+		return append([]byte{}, r...), "", nil // a copy: what a later call does to the returned slice is judged in the histories
 	case "SHA512_256i", "SHA512_256i_TAGGED":
 		t := make([]*big.Int, len(in.Ints))
 		for i, s := range in.Ints {
@@ -146,8 +151,11 @@ func c16HashEval(c *c16HashCase) *c16Finding {
 	}
 	if bytes.Equal(da, db) {
 		cl := c16DiffClass(c.Fn, c.A, c.B)
-		return &c16Finding{Key: "C16:hash-collision:" + c.Fn + ":" + cl,
-			What: fmt.Sprintf("common.%s maps two different inputs (%s) to the same digest %x: %s vs %s", c.Fn, cl, da[:8], c16Show(c.A), c16Show(c.B))}
+		what := fmt.Sprintf("common.%s maps two different inputs (%s) to the same digest %x: %s vs %s", c.Fn, cl, da[:8], c16ShowShort(c.A), c16ShowShort(c.B))
+		if c.Note != "" {
+			what += " [" + c.Note + "]"
+		}
+		return &c16Finding{Key: "C16:hash-collision:" + c.Fn + ":" + cl, What: what}
 	}
 	return nil
 }
@@ -163,15 +171,41 @@ func c16Show(x c16HashInput) string {
 	return s + "(" + strings.Join(x.Ints, ", ") + ")"
 }
 
+// long inputs abbreviated (the replay file has them in full)
+func c16ShowShort(x c16HashInput) string {
+	ab := func(v []string) []string {
+		r := make([]string, len(v))
+		for i, s := range v {
+			if len(s) > 64 {
+				s = fmt.Sprintf("%s..(%d chars)..%s", s[:24], len(s), s[len(s)-24:])
+			}
+			r[i] = s
+		}
+		return r
+	}
+	y := x
+	y.Bytes, y.Ints = nil, nil
+	if x.Bytes != nil {
+		y.Bytes = ab(x.Bytes)
+	}
+	if x.Ints != nil {
+		y.Ints = ab(x.Ints)
+	}
+	return c16Show(y)
+}
+
 // ---------------------------------------------------------------- tables
 
 type c16HashState struct {
-	cov       *core.Cov
-	add       func(*c16Finding, c16Scenario)
-	seen      map[string]map[[32]byte]c16HashInput // per function: digest -> first input that produced it
-	tagFrames map[string][]byte                    // frame of the 1-tuple <<tag>> (from the bytes table)
-	drift     map[string]int
-	driftEx   []string
+	cov        *core.Cov
+	add        func(*c16Finding, c16Scenario)
+	seen       map[string]map[[32]byte]c16HashInput // per function: digest -> first input that produced it
+	tagFrames  map[string][]byte                    // frame of the 1-tuple <<tag>> (from the bytes table)
+	drift      map[string]int
+	driftEx    []string
+	pairHits   map[string]int      // per function: adversarial pairs it maps to one digest
+	weakBy     map[string]bool     // framing variants under which some adversarial pair collides (TLC)
+	identified map[string][]string // per function: the framing variants of the specification whose probe frames hash to its digests
 }
 
 func c16NewHashState(cov *core.Cov, add func(*c16Finding, c16Scenario)) *c16HashState {
@@ -264,7 +298,7 @@ func (h *c16HashState) bytesTable(out string, want int) error {
 			h.tagFrames[string(t[0])] = f
 		}
 		if firstLib == nil {
-			firstLib, firstFrame = lib, f
+			firstLib, firstFrame = append([]byte{}, lib...), f // (a copy: the library's slice is not the harness's to keep)
 		}
 		return nil
 	})
@@ -389,16 +423,22 @@ func (h *c16HashState) intsTable(out string, want int, nTags int) error {
 	h.cov.Set("tuples_ints_nil_free", nilFree)
 	h.cov.Set("tags", len(tags))
 	h.cov.Set("recorded_not_judged", map[string]any{
-		"tagged_rows_with_nil":                         len(nilRows),
-		"tagged_rows_with_nil_hashing_like_zero":       nilAsZero,
-		"SHA512_256iOne_distinct_digests_on_the_ints":  len(one),
-		"SHA512_256iOne_collision":                     oneCollision,
-		"SHA512_256iOne_has_no_framing_single_input":   true,
-		"frame_conformance_mismatches (drift)":         h.drift,
-		"frame_conformance_mismatch_examples":          h.driftEx,
-		"digests_compared_pairwise_per_function":       map[string]int{"SHA512_256": len(h.seen["SHA512_256"]), "SHA512_256i": len(h.seen["SHA512_256i"]), "SHA512_256i_TAGGED": len(h.seen["SHA512_256i_TAGGED"])},
+		"tagged_rows_with_nil":                        len(nilRows),
+		"tagged_rows_with_nil_hashing_like_zero":      nilAsZero,
+		"SHA512_256iOne_distinct_digests_on_the_ints": len(one),
+		"SHA512_256iOne_collision":                    oneCollision,
+		"SHA512_256iOne_has_no_framing_single_input":  true,
+		"frame_conformance_mismatches (drift)":        h.drift,
+		"frame_conformance_mismatch_examples":         h.driftEx,
+		"digests_compared_pairwise_per_function":      map[string]int{"SHA512_256": len(h.seen["SHA512_256"]), "SHA512_256i": len(h.seen["SHA512_256i"]), "SHA512_256i_TAGGED": len(h.seen["SHA512_256i_TAGGED"])},
 	})
 	return nil
+}
+
+// finishDrift records the conformance mismatches of ALL tables (the entry written by intsTable covers the first two).
+func (h *c16HashState) finishDrift() {
+	h.cov.Set("frame_conformance_mismatches_all_tables (drift)", h.drift)
+	h.cov.Set("frame_conformance_mismatch_examples_all_tables", h.driftEx)
 }
 
 // witnesses: the pairs TLC found colliding under the broken framings must be separated by the real function.
@@ -686,7 +726,7 @@ func (rl *c16RandomLong) conformance(out string, cov *core.Cov) error {
 	tag := []byte("C16 session tag")
 	// T = SHA512_256(tag); the frame of <<tag>> is taken from the same TLC run: not available here, so T comes from the
 	// library and only the composition T o T o Frame is checked for the tagged function at this size.
-	T := common.SHA512_256(tag)
+	T := append([]byte{}, common.SHA512_256(tag)...)
 	mism := map[string]int{}
 	for i := range rl.sample {
 		f1, err1 := c16ToBytes(fb[i])
